@@ -2,11 +2,23 @@
 (* Behaviour generation: every behaviour of the meter over an alphabet, to a  *)
 (* fixed number of observations, with the specification's expectation after   *)
 (* every observation.  One JSON object per behaviour:                         *)
-(*   fam  family name                                                         *)
+(*   fam  family name ("life": every history of Start / Close / Observe /     *)
+(*        ReadRate of length MaxSteps, NEXT GenLifeNext, INVARIANT EmitLife;  *)
+(*        the other families: Start + MaxSteps observations)                  *)
 (*   w    window lengths in ms                                                *)
 (*   kb,kr unit scaling <<mul, div>> of the bitrate / request-rate meters      *)
 (*   h    the history, one entry per action:                                  *)
 (*        <<1, 1>>                                          Start             *)
+(*        <<2, 1>>                                          Close             *)
+(*        <<3, i, ok, cls, num, den>>                       ReadRate(i)       *)
+(*        i       1..3: the window's rate, 4: the average                     *)
+(*        ok      1: answered, 0: refused (what the specification does)       *)
+(*        cls     0: the meter was never started: the read must be refused    *)
+(*                1: the meter is running: the read must be answered          *)
+(*                2: closed after a start, or started again after Close: the  *)
+(*                   property is silent (ok says what the library does)       *)
+(*        num/den the value per second, if answered (for i = 4: as avn/avd    *)
+(*                of the last observation)                                    *)
 (*        <<0, st, dt, mk, mv, cnt, now,                    Observe           *)
 (*          f1, f2, f3, n1, n2, n3, a1, a2, a3, avn, avd, ava>>               *)
 (*        st      1 iff the meter is started (rates may be read)              *)
@@ -44,6 +56,9 @@ GenTime == (AllDts \X {Add(1000)}) \cup ({1, 10000, 30000} \X {Add(1), Add(0), A
 GenCounter == {1, 10000, 301000} \X AllMoves
 \* public meters with Start at any position
 GenApi == {<<1, Add(1000)>>, <<10000, Add(1000)>>, <<30000, Add(1)>>, <<10000, Add(-5)>>}
+\* lifecycle family: one observation letter that makes the 10 s window sample
+\* (every other letter of the history is Start, Close or one of the four reads)
+GenLife == {<<10000, Add(1000)>>}
 \* simulation: the unfactored product
 GenFull == AllDts \X AllMoves
 
@@ -66,6 +81,19 @@ GenNext ==
   \/ /\ Start
      /\ hist' = Append(hist, <<1, 1>>)
 
+\* ---- lifecycle family: every history of {Start, Close, Observe, ReadRate(1..4)}
+\* of length MaxSteps (every shorter history is a prefix of one of them: ReadRate
+\* is always enabled)
+GenLifeNext ==
+  /\ Len(hist) < MaxSteps
+  /\ \/ GenNext
+     \/ /\ Close
+        /\ hist' = Append(hist, <<2, 1>>)
+     \/ \E i \in Reads :
+          /\ ReadRate(i)
+          /\ hist' = Append(hist, <<3, i, B(ev'.ok), ReadClass, ev'.num, ev'.den>>)
+
 CaseOf == [fam |-> Family, w |-> WLen, kb |-> KbpsScale, kr |-> KrpsScale, h |-> hist]
 Emit == (steps = MaxSteps) => PrintT(<<"CASE", ToJson(CaseOf)>>)
+EmitLife == (Len(hist) = MaxSteps) => PrintT(<<"CASE", ToJson(CaseOf)>>)
 =============================================================================
